@@ -1,5 +1,6 @@
 /* C16: pipelines of public API calls against the ring expression they denote.
  *   h_pipe_int  (bit-precise): rotate -> automorphism -> add -> normalize_base2k on 2-limb vectors, N = NN, p1 / p2 symbolic
+ *   h_pipe_big  (bit-precise): add_small2 -> big rotate -> big (range) normalize with fewer / as many / more output limbs
  *   h_pipe_ntt  (exported, integer domain): NTT120 vec_znx_dft -> vec_znx_idft[_tmp_a] -> 128-bit result equals the input
  *     -DNN -DMM -DK -DNEGMASK (sign class of each coefficient) -DTMPA -DRSZ -DASZ */
 #include "apimod.h"
@@ -75,6 +76,55 @@ void h_pipe_int(void) {
     i128 c = (e[1][j] - d1) >> K;
     int64_t d0 = spec_digit(e[0][j] + c);
     VF_ASSERT(r[NN + j] == d1 && r[j] == d0, "pipeline rotate->automorphism->add->normalize equals the digits of the ring expression");
+  }
+  VF_REACH();
+}
+
+/* integer pipeline through the big-coefficient space: small + small -> big (3 limbs), rotate in big space, then big normalization into
+ * RSZB output limbs (fewer, as many, or more than the big vector has): the digits of the ring expression (x + y) * X^p1, carries from the
+ * limbs that have no counterpart in the output included.   -DRSZB=<output limbs>  -DRANGE (range variant, begin 0, step 1) */
+#ifndef RSZB
+#define RSZB 2
+#endif
+void h_pipe_big(void) {
+  MODULE mod;
+  vf_module_init_notables(&mod, NN, FFT64, AVX);
+  int64_t* x = (int64_t*)vf_alloc_words_raw(3 * NN);
+  int64_t* y = (int64_t*)vf_alloc_words_raw(3 * NN);
+  for (uint64_t i = 0; i < 3 * NN; ++i) {
+    x[i] = vf_i64();
+    y[i] = vf_i64();
+    VF_ASSUME(x[i] >= -(INT64_C(1) << 60) && x[i] <= (INT64_C(1) << 60));
+    VF_ASSUME(y[i] >= -(INT64_C(1) << 60) && y[i] <= (INT64_C(1) << 60));
+  }
+  const int64_t p1 = vf_i64();
+  int64_t* big = (int64_t*)vf_alloc_words(3 * NN);
+  int64_t* big2 = (int64_t*)vf_alloc_words(3 * NN);
+  int64_t* r = (int64_t*)vf_alloc_words((uint64_t)(RSZB ? RSZB : 1) * NN);
+  uint8_t* tmp = (uint8_t*)vf_alloc_words(vec_znx_big_normalize_base2k_tmp_bytes(&mod) / 8);
+  vec_znx_big_add_small2(&mod, (VEC_ZNX_BIG*)big, 3, x, 3, NN, y, 3, NN);
+  vec_znx_big_rotate(&mod, p1, (VEC_ZNX_BIG*)big2, 3, (VEC_ZNX_BIG*)big, 3);
+#ifdef RANGE
+  vec_znx_big_range_normalize_base2k(&mod, K, r, RSZB, NN, (VEC_ZNX_BIG*)big2, 0, 3, 1, tmp);
+#else
+  vec_znx_big_normalize_base2k(&mod, K, r, RSZB, NN, (VEC_ZNX_BIG*)big2, 3, tmp);
+#endif
+  for (uint64_t j = 0; j < NN; ++j) {
+    i128 e[3];
+    for (unsigned l = 0; l < 3; ++l) {
+      /* coefficient j of (x+y)*X^p1 comes from coefficient s with s + p1 = j (mod 2N) */
+      uint64_t s = ((uint64_t)j - (uint64_t)p1) & (2 * NN - 1);
+      i128 v = s < NN ? (i128)x[l * NN + s] + y[l * NN + s] : -((i128)x[l * NN + s - NN] + y[l * NN + s - NN]);
+      e[l] = v;
+    }
+    int64_t d2 = spec_digit(e[2]);
+    i128 c = (e[2] - d2) >> K;
+    int64_t d1 = spec_digit(e[1] + c);
+    c = (e[1] + c - d1) >> K;
+    int64_t d0 = spec_digit(e[0] + c);
+    const int64_t d[3] = {d0, d1, d2};
+    for (unsigned i = 0; i < RSZB; ++i)
+      VF_ASSERT(r[i * NN + j] == (i < 3 ? d[i] : 0), "pipeline add -> big rotate -> big normalize equals the digits of the ring expression (carries of dropped limbs included)");
   }
   VF_REACH();
 }
